@@ -74,6 +74,9 @@ type dxScen struct {
 	Mode  string   `json:"mode"`
 	NCli  int      `json:"ncli"`
 	Steps []dxStep `json:"steps"`
+	// DataFirst: the shared transport's Read returns an envelope it already has before it looks at the
+	// context (as transports with buffered data do; goat's own channel transport picks either at random)
+	DataFirst bool `json:"datafirst"`
 }
 
 func dxDigest(r *goat.Rpc) string {
@@ -109,6 +112,7 @@ type dxShared struct {
 	nInj    int
 	nIn     int
 	nOut    int
+	dataFirst bool
 	route   func(*goat.Rpc) // rpc mode: hand a written envelope to its client
 }
 
@@ -131,7 +135,7 @@ func (s *dxShared) inject(r *goat.Rpc) {
 func (s *dxShared) Read(ctx context.Context) (*goat.Rpc, error) {
 	for {
 		s.mu.Lock()
-		if err := ctx.Err(); err != nil {
+		if err := ctx.Err(); err != nil && !(s.dataFirst && !s.failed && len(s.inq) > 0 && (!s.hold || s.credits > 0)) {
 			s.mu.Unlock()
 			return nil, err
 		}
@@ -490,7 +494,7 @@ func runDemux(t *testing.T, _ *Scenario, raw []byte) {
 		rt := &dxRT{sc: &sc, g: &gateTab{armed: map[string][]*armed{}}, wake: make(chan struct{}),
 			conns: map[string][]*dxConn{}, clis: map[string]*dxClient{}, calls: map[int]*call{}}
 		rt.opSeq.Store(100000)
-		rt.sh = &dxShared{wake: make(chan struct{})}
+		rt.sh = &dxShared{wake: make(chan struct{}), dataFirst: sc.DataFirst}
 		rt.root, rt.cancel = context.WithCancel(context.Background())
 		tr.mu.Lock()
 		tr.start = time.Now()
